@@ -124,7 +124,7 @@ func (w *World) setupCallbacks() {
 			return i, nil
 		}
 	}
-	if bits&CbKeyCompare != 0 || w.usesComparators() {
+	if bits&CbKeyCompare != 0 || (w.usesComparators() && !w.c.Cfg.CmpViaSet) {
 		cbs.KeyCompareForCollection = func(name string) g.KeyCompare {
 			w.ev["cb_keycompare"]++
 			if ci, ok := w.cmpLoad[name]; ok {
